@@ -120,6 +120,18 @@ def run(ctx):
                         continue
                     cases.append({"text": text, "day_text": dt, "clock_text": ct, "D": D, "C": C, "ts": ts,
                                   "label": dl + " x " + cl, "form": ol})
+    # every connecting word of the lexicon that stands in front of a clock time (incl. the dotted abbreviations "ca." / "approx."),
+    # day first, on a handful of day and clock forms
+    conn = [w for w in G.LEX["absorb"] if w in ("at", "um", "gegen", "ca", "ca.", "approx", "approx.", "about", "around")]
+    dsel = [x for x in days if x[1] in ("tomorrow", "morgen", "friday", "5.3.2021", "am 5.3.2021", "next friday", "the 15th")] or days[:6]
+    csel = [x for x in clocks if x[1] in ("9:00", "15:30", "8 uhr", "8pm", "20:00", "9:05", "3:30pm")] or clocks[:6]
+    for dl, dt, D in dsel:
+        for cl, ct, C in csel:
+            for w in conn:
+                if w in ("um", "gegen") and C["h"] % 12 == 0:
+                    continue
+                cases.append({"text": dt + " " + w + " " + ct, "day_text": dt, "clock_text": ct, "D": D, "C": C, "ts": tss[0],
+                              "label": dl + " x " + cl, "form": "day " + w + " clock"})
     core.run_stage(ctx, "e2e-glue", cases, e2e.obs_glue, "DenoteTrace", sig_keys=("form",), diagnose=diagnose)
 
 
